@@ -167,7 +167,19 @@ func CosineSimilarity(a, b []float32) float64 {
 		return 0
 	}
 
-	return dot / (math.Sqrt(normA) * math.Sqrt(normB))
+	sim := dot / (math.Sqrt(normA) * math.Sqrt(normB))
+	// A damaged embedding file can hold NaN or infinite components (the quotient is then NaN),
+	// and rounding can push the quotient of parallel vectors an ulp beyond 1: callers rely on a
+	// value in [-1, 1].
+	switch {
+	case math.IsNaN(sim):
+		return 0
+	case sim > 1:
+		return 1
+	case sim < -1:
+		return -1
+	}
+	return sim
 }
 
 // SemanticScores computes cosine similarity between query and all commands.
